@@ -165,6 +165,8 @@ def blocks(tier):
         blocks.append(Block("v3.%s.env_two_values" % order, fam, pick_bases(fam, 6 if thorough else 2),
                             few(tsp3, "3.0"), v3_env_two_values(), twin=twin,
                             meta={"order": order}))
+    blocks.append(spaces.interaction_block("2", tier))
+    blocks.append(spaces.interaction_block("3.0", tier, twin="3.1"))
     if thorough:
         # the complete environmental spelling space (30,000,000) on one base vector, v3.1
         full = dict((m, [None] + T.V3[m]) for m in T.V3_ENV)
